@@ -499,12 +499,15 @@ func (c *Clause) HasTag(p string) bool {
 		return true
 	}
 	for _, t := range c.Tags {
-		if t == p {
+		if t == p || alsoTags[t] {
 			return true
 		}
 	}
 	return false
 }
+
+// alsoTags (debugging only, GOVC_ALSO=C01,C02): treat these tags as included too.
+var alsoTags = map[string]bool{}
 
 type LoopSpec struct {
 	Ord     int
@@ -543,6 +546,7 @@ type SpecFunc struct {
 	Ret    string
 	Body   Expr // nil = uninterpreted
 	Pkg    string
+	Opaque bool
 }
 
 type GhostVar struct {
@@ -743,6 +747,28 @@ func (db *ContractDB) ParseContractFile(fset *token.FileSet, f *ast.File, pkgPat
 				return fail(l.no, "%v", err)
 			}
 			db.Consts[strings.TrimSpace(rest[:i])] = e
+			cur, curLoop, curLemma = nil, nil, nil
+		case "opaque":
+			// opaque spec f(...) T = body : translated as an uninterpreted predicate with a triggered definition
+			rest = strings.TrimSpace(strings.TrimPrefix(rest, "spec"))
+			op := strings.Index(rest, "(")
+			cp := matchParen(rest, op)
+			if op < 0 || cp < 0 {
+				return fail(l.no, "bad opaque spec header")
+			}
+			sf := &SpecFunc{Name: strings.TrimSpace(rest[:op]), Params: parseTypedList(rest[op+1 : cp]), Pkg: pkgPath, Opaque: true}
+			tail := strings.TrimSpace(rest[cp+1:])
+			i := strings.Index(tail, "=")
+			if i < 0 {
+				return fail(l.no, "opaque spec needs a body")
+			}
+			sf.Ret = strings.TrimSpace(tail[:i])
+			e, err := ParseExpr(tail[i+1:])
+			if err != nil {
+				return fail(l.no, "%v", err)
+			}
+			sf.Body = e
+			db.Specs[sf.Name] = sf
 			cur, curLoop, curLemma = nil, nil, nil
 		case "spec":
 			// spec name(a T, b U) R [= expr]
